@@ -4,7 +4,7 @@ from fractions import Fraction
 
 from ..ref.numbering import flat_f
 from ..ref.robot import Robot
-from ..world import DEVICE, exec_event, initial_contents, make_world, ref_wells
+from ..world import DEVICE, exec_event, initial_contents, make_world, ref_vols, ref_wells
 from . import common as cm
 
 WASH = [1, 2, 3, 4, "flush", "reuse"]
@@ -100,6 +100,18 @@ def full_W1(tier):
         D("T", ["A01", "C01", "B02"], [1.5, 2.5, 3.5]),
         D("Q", ["B02", "A01", "B02"], 7.5),
         D("Q", "A01", 30, compositions=[{"x": 1.0}]),
+    ]
+    # argument types: tuples, numpy scalars, numpy integer column index, integer-typed arrays
+    ev += [
+        T("P", {"$tuple": ["A01", "B01"]}, "Q", {"$tuple": ["A01", "B02"]}, {"$tuple": [7.5, 30]}),
+        T("T", ["A01", "B02"], "Q", ["A01", "C02"], {"$a": [30, 70]}),
+        T("P", "A01", "Q", "B01", {"$npf": 7.5}),
+        T("P", ["A01", "B01"], "Q", ["A01", "B01"], {"$npi": 30}),
+        A("P", {"$tuple": ["A01", "B03"]}, {"$npf": 7.5}),
+        D("Q", {"$tuple": ["C01", "C02"]}, {"$tuple": [1.5, 2.5]}),
+        D("Q", ["A01", "B01"], {"$a": [30, 70]}),
+        ["distribute", "w", "T", {"$npi": 1}, "Q", ["A01", "B02"], {"volume": {"$npf": 7.5}}],
+        ["distribute", "w", "T", 0, "Q", {"$tuple": ["C01", "A02"]}, {"volume": 30, "multi_disp": {"$npi": 3}}],
     ]
     # distribute to every non-empty subset of Q's six wells, holes and all
     qw = ["A01", "B01", "C01", "A02", "B02", "C02"]
@@ -221,6 +233,36 @@ def full_W4(tier):
     return ev
 
 
+def core_W5():
+    return [
+        T("P", ["A100", "B101", "A10", "B01"], "Q", ["Z02", "A01", "Y01", "Z01"], [7.5, 30, 70, 120]),
+        T("T", ["Z01", "A01", "M01"], "P", ["B100", "A101", "A99"], [30, 7.5, 70]),
+        T("U", "A01", "Q", ["Z01", "A02"], [7.5, 30]),
+        T("Q", ["Z02"], "U", ["A01"], [7.5]),
+        R("T", 0, "Q", ["A01", "Z02", "Y02", "M01"], 7.5),
+        R("T", 0, "P", {"$w2d": ["P", 0, 2, 98, 101]}, 7.5),
+        A("P", {"$w2d": ["P", 0, 2, 99, 101]}, 7.5),
+        D("Q", ["Z01", "Z02", "A02"], [1.5, 2.5, 3.5]),
+    ]
+
+
+def full_W5(tier):
+    ev = []
+    for pb in PART:
+        ev.append(T("P", ["B101", "A100", "A09", "B10"], "Q", ["Z01", "A02", "Z02", "M01"], [120, 7.5, 70, 30], partition_by=pb))
+        ev.append(T("T", ["Z01", "A01", "M01"], "Q", ["A01", "Z01", "N02"], [120, 30, 7.5], partition_by=pb, wash_scheme="reuse"))
+    ev += [
+        T("T", "Z01", "Q", {"$w2d": ["Q", 0, 26, 1, 2]}, 7.5),
+        R("T", 0, "Q", {"$w2d": ["Q", 0, 26, 0, 2]}, 7.5, multi_disp=6),
+        R("T", 0, "U", ["A01"], 30),
+        R("T", 0, "P", ["A100", "A101", "B99"], 7.5),
+        A("T", ["A01", "Z01"], [1.5, 2.5]),
+        D("P", {"$w2d": ["P", 0, 2, 97, 101]}, {"$a": [[1.5, 2.5, 3.5, 4.5], [5.5, 6.5, 7.5, 8.5]]}),
+        D("U", "A01", 7.5),
+    ]
+    return ev
+
+
 def inexact_events():
     third = {"$hex": (1 / 3).hex()}
     return [
@@ -237,7 +279,7 @@ def inexact_events():
     ]
 
 
-SETS = {"W1": (cm.W1, core_W1, full_W1), "W2": (cm.W2, core_W2, full_W2), "W3": (cm.W3, core_W3, full_W3), "W4": (cm.W4, core_W4, full_W4)}
+SETS = {"W1": (cm.W1, core_W1, full_W1), "W2": (cm.W2, core_W2, full_W2), "W3": (cm.W3, core_W3, full_W3), "W4": (cm.W4, core_W4, full_W4), "W5": (cm.W5, core_W5, full_W5)}
 
 
 class Harness(cm.BaseA):
@@ -382,6 +424,8 @@ class Harness(cm.BaseA):
                 V.append(("C01/addressing", f"transfer flows {fmt(got)} vs requested {fmt(want)}"))
         elif op == "distribute":
             _, _, src, col, dst, dw, kw = ev
+            col = ref_vols(col)
+            kw = {k: ref_vols(v) for k, v in kw.items()}
             g = cm.geos(config)[dst]
             wantd = sorted(g.real(w) for w in flat_f(ref_wells(dw, config)))
             rs = [p for p in parsed if p["kind"] in "ADR"]
